@@ -128,19 +128,19 @@ Definition fix_astar (hdr : list ctfline) (stops : list Z) (x y : list T) : resu
   end.
 
 (* ---- file_reader ---- *)
-Fixpoint assign_ctf (vendor : string) (names : list string) (k : nat) (rows : list (list (num (T:=T))))
+Fixpoint assign_ctf (em : bool) (names : list string) (k : nat) (rows : list (list (num (T:=T))))
     (core prop : list (string * list (num (T:=T)))) : result (list (string * list num) * list (string * list num)) :=
   match names with
   | [] => Ok (core, prop)
   | nm :: names' =>
       if Nat.ltb k (ncols_of rows) then
         let c := col k rows in
-        if mem_str nm ctf_core_names then assign_ctf vendor names' (S k) rows (aset nm c core) prop
+        if mem_str nm ctf_core_names then assign_ctf em names' (S k) rows (aset nm c core) prop
         else
-          let nm' := if String.eqb vendor "emsoft" then
+          let nm' := if em then
                        match aget nm ctf_emsoft_mapping with Some m => m | None => nm end
                      else nm in
-          assign_ctf vendor names' (S k) rows core (aset nm' c prop)
+          assign_ctf em names' (S k) rows core (aset nm' c prop)
       else Err EIndex
   end.
 
@@ -149,7 +149,7 @@ Definition parse_ctf (lines : list ctfline) (rows : list (list (num (T:=T)))) (s
   let hdr := take_header lines in
   let vendor := ctf_vendor hdr in
   bind (ctf_phases hdr) (fun ph =>
-  bind (assign_ctf vendor ctf_column_names 0 rows [] []) (fun cp =>
+  bind (assign_ctf (String.eqb vendor "emsoft") ctf_column_names 0 rows [] []) (fun cp =>
   let '(core, prop) := cp in
   let v nm := map (nval Op) (match aget nm core with Some c => c | None => [] end) in
   bind (if String.eqb vendor "astar" then fix_astar hdr stops (v "x") (v "y") else Ok (v "x", v "y")) (fun xy =>
